@@ -1,0 +1,38 @@
+//go:build verif
+
+// Purpose: Verification-only hook for forcing generated short ids.
+// Exports: none.
+// Role: Compiled only with -tags verif; lets an external harness choose the next id candidates.
+// Invariants: Without ERGO_VERIF_IDS in the environment this behaves exactly like the default build.
+// Notes: The file named by ERGO_VERIF_IDS holds one candidate id per line; each call pops the first.
+package ergo
+
+import (
+	"os"
+	"strings"
+)
+
+// verifNextID pops the next forced id candidate, if any.
+func verifNextID() (string, bool) {
+	path := os.Getenv("ERGO_VERIF_IDS")
+	if path == "" {
+		return "", false
+	}
+	data, err := os.ReadFile(path)
+	if err != nil {
+		return "", false
+	}
+	lines := strings.Split(string(data), "\n")
+	for i, line := range lines {
+		id := strings.TrimSpace(line)
+		if id == "" {
+			continue
+		}
+		rest := strings.Join(lines[i+1:], "\n")
+		if err := os.WriteFile(path, []byte(rest), 0644); err != nil {
+			return "", false
+		}
+		return id, true
+	}
+	return "", false
+}
